@@ -97,7 +97,15 @@ func (c *wsConn) listen(ws *websocket.Conn) {
 	var in []byte
 	var err error
 
+	// The service may have been stopped while the connection was being
+	// established. Stop closes the connections it finds with the lock held.
+	c.serv.mu.Lock()
 	c.ws = ws
+	stopped := c.serv.stop == nil || c.serv.stopping
+	c.serv.mu.Unlock()
+	if stopped {
+		ws.Close()
+	}
 
 	// Loop until an error is returned when reading
 	for {
